@@ -206,6 +206,22 @@ func drawYen(t *rapid.T) yenCase {
 	if c.T == c.S && hi > 0 && rapid.IntRange(0, 7).Draw(t, "allowself") > 0 {
 		c.T = (c.S + 1 + rapid.IntRange(0, hi-1).Draw(t, "tshift")) % (hi + 1)
 	}
+	if c.S < n && c.T < n && c.S != c.T && rapid.IntRange(0, 3).Draw(t, "forcereach") > 0 {
+		// prefer a target that can be reached
+		m := newModel(c.nodeIDs(), c.allArcs(), c.Undir)
+		d := m.bf(c.S)
+		if math.IsInf(d[c.T], 1) {
+			var reach []int
+			for v := range d {
+				if v != c.S && !math.IsInf(d[v], 1) {
+					reach = append(reach, v)
+				}
+			}
+			if len(reach) > 0 {
+				c.T = reach[rapid.IntRange(0, len(reach)-1).Draw(t, "treach")]
+			}
+		}
+	}
 	c.K = rapid.SampledFrom([]int{-1, -1, 0, 1, 2, 2, 3, 5, 5, 50}).Draw(t, "k")
 	c.Cost = vk.F(rapid.SampledFrom([]float64{0, 0.5, 1, 3, math.Inf(1), math.Inf(1)}).Draw(t, "cost"))
 	return c
